@@ -333,7 +333,8 @@ def run_shard(item):
                     continue
                 seen.add(hk)
                 # all three configurations on the default/tight/pair-gap layouts; others rotate
-                cfgs = CONFIGS if desc in ('default', 'tight', 'pair-gap') else [CONFIGS[j % 3]]
+                cfgs = CONFIGS if (desc in ('default', 'tight', 'pair-gap') and fam not in ('local', 'chain')) else \
+                    [CONFIGS[(j + len(prog.toks)) % 3]]
                 for cfg in cfgs:
                     run_one(prog, src, cfg, res, fam)
             if fam == 'pairs':
